@@ -89,7 +89,7 @@ func init() {
 		Rule: "quick: all repo test files + 2 000 generated files, thorough: + 100 000 generated files. One case = one file decoded twice (mp4.DecodeFile from a bytes.Reader: normal mode and WithDecodeMode(DecModeLazyMdat)). Files: every file of at most 512 KiB under the repo's testdata directories (progressive, fragmented, encrypted, init-only; files both modes reject are counted, not compared) " +
 			"followed by generated progressive files (gen/prog.RandomTables, own serializer): 1..2 tracks, 1..48 samples, mdat payload about 0..4 KiB (budgets 8, 32, 96, 512, 4096 bytes), compact and forced 64-bit mdat headers, mdat before and after moov, free box, junk gaps, stco/co64, arbitrary chunk interleaving. " +
 			"Compared: acceptance, top-level box list, Size() of every box and of the file, reflect.DeepEqual of every non-mdat box, per-fragment moof equality for fragmented files, StartPos/LargeSize/HeaderSize/PayloadAbsoluteOffset of every mdat in both modes and against the reference walker, File.Info dumps at all:1; " +
-			"for every mdat: lazy Encode and EncodeSW = the original header bytes, header + CopyData(whole payload) = the original box; ReadData and CopyData in both modes for ALL (start,size>=1) ranges inside the payload when it has at most 96 bytes, otherwise all ranges that start in the first 3 or end in the last 3 payload bytes combined with boundary sizes plus 200 random ranges, expected = file[start:start+size]; " +
+			"for every mdat: lazy Encode and EncodeSW = the original header bytes, header + CopyData(whole payload) = the original box; ReadData and CopyData in both modes for ALL (start,size>=1) ranges inside the payload when it has at most 96 bytes, otherwise all ranges that start in the first 3 or end in the last 3 payload bytes combined with boundary sizes plus 200 random ranges, expected = file[start:start+size], and the four most recent lazy ReadData results are held and must still equal the file after every later lazy call on the same box; " +
 			"ranges partly or wholly outside the payload: an error is fine, returned bytes must be the file's bytes at that range; the ReadSeeker handed to the data calls is a bytes.Reader or (1 case in 3) a reader that delivers 1..5 bytes per Read call. " +
 			"For progressive files with a reference expansion: File.CopySampleData for all sample intervals of tracks with at most 12 samples (boundary + 40 random otherwise) x work buffers {nil, 1, 2, 3, 7, 16, 4096, total+5} in lazy mode and {nil, 7} in memory mode = concatenation of the samples' bytes. " +
 			"Non-trivial = a file both modes accept that has an mdat with at least 2 payload bytes on which range comparisons ran (hash of the file bytes); evaluations = individual data calls and tree comparisons.",
@@ -139,6 +139,14 @@ type state struct {
 	rs    io.ReadSeeker
 	rsK   string
 	evals int64
+	// held are the most recent lazy ReadData results still in the caller's hands
+	held     [4]heldRead
+	heldNext int
+}
+
+type heldRead struct {
+	got         []byte
+	start, size int
 }
 
 func (s *state) detail(extra map[string]interface{}) map[string]interface{} {
@@ -395,6 +403,27 @@ func (s *state) dataCall(mode, fn string, m *mp4.MdatBox, rs io.ReadSeeker, star
 	}
 	if !bytes.Equal(got, b[start:start+size]) || (n >= 0 && n != int64(size)) {
 		c.Violation(key+"/wrong-bytes", fmt.Sprintf("%s-mode %s(start=%d,size=%d) returns %d bytes (n=%d) that differ from file[%d:%d] (%s)", mode, fn, start, size, len(got), n, start, start+size, s.name), det())
+		return
+	}
+	if mode != "lazy" {
+		return
+	}
+	// a result handed out earlier stays the caller's: later calls on the same box must not change it
+	// (in-memory results are views of the payload and never change)
+	for i := range s.held {
+		h := &s.held[i]
+		if h.got != nil && !bytes.Equal(h.got, b[h.start:h.start+h.size]) {
+			d := det()
+			d["earlier_start"], d["earlier_size"] = h.start, h.size
+			c.Violation("lazy/ReadData/earlier-result-changed-by-later-"+fn, fmt.Sprintf("the slice returned by lazy ReadData(start=%d,size=%d) was correct when returned and no longer equals file[%d:%d] after %s(start=%d,size=%d) on the same mdat (%s)",
+				h.start, h.size, h.start, h.start+h.size, fn, start, size, s.name), d)
+			h.got = nil
+		}
+	}
+	if fn == "ReadData" {
+		s.held[s.heldNext%len(s.held)] = heldRead{got, start, size}
+		s.heldNext++
+		c.Count("lazy_results_held_across_later_calls", 1)
 	}
 }
 
